@@ -99,6 +99,23 @@ def _o1_o2(ctx, result, module):
         result.add(Finding("R-OPT", module, qual, yields[0],
                            "O2: the yield is not protected by try/finally: an exception in the "
                            "with-block leaves the options changed"))
+    # what the with-statement hands out is a detached copy of the ACTIVE options, never the snapshot object
+    yielded = yields[0].value if isinstance(yields[0], ast.Yield) else None
+    snapshot_vars = {t.id for n2 in ast.walk(func) if isinstance(n2, ast.Assign) and isinstance(n2.value, ast.Call)
+                     and _is_copy_of(ctx, module, n2.value, TABLE) for t in n2.targets if isinstance(t, ast.Name)}
+    if yielded is not None:
+        hands_out_snapshot = isinstance(yielded, ast.Name) and yielded.id in snapshot_vars
+        live = ctx.dotted(module, yielded) == TABLE
+        result.ob("O4 global_options yields a detached copy of the active options", not (hands_out_snapshot or live),
+                  module.loc(yields[0]), U(yielded))
+        if hands_out_snapshot or live:
+            result.add(Finding(
+                "R-OPT", module, qual, yields[0],
+                f"O4: global_options yields {'the snapshot it later restores from' if hands_out_snapshot else 'the live option table'} "
+                f"('{U(yielded)}'): the 'as' target reports the options from before the block, and editing it changes what is "
+                f"restored on exit" if hands_out_snapshot else
+                f"O4: global_options yields the live option table: editing the 'as' target changes the options directly",
+                construct="global_options: yielded object"))
     n = 0
     for path in paths:
         trace = describe_path(path)
@@ -803,6 +820,7 @@ def _o9_o10(ctx, result):
             continue
         for path in ctx.paths_auto(module, func):
             snaps = {}  # local name -> provenance text of a full snapshot
+            keysave = {}  # local name -> option key whose value it saved
             changed = {}  # option key (or '*') -> step
             bad = None
             for step in path:
@@ -812,6 +830,12 @@ def _o9_o10(ctx, result):
                         for target in step.node.targets:
                             if isinstance(target, ast.Name):
                                 snaps[target.id] = U(value)
+                    # a single saved key:  old = get_options()["key"]
+                    if isinstance(value, ast.Subscript) and isinstance(value.slice, ast.Constant) \
+                            and _is_copy_of(ctx, module, value.value, TABLE):
+                        for target in step.node.targets:
+                            if isinstance(target, ast.Name):
+                                keysave[target.id] = value.slice.value
                 for call in _calls(ctx, module, step, SET):
                     sites += 1
                     for kw in call.keywords:
@@ -829,10 +853,16 @@ def _o9_o10(ctx, result):
                             else:
                                 bad = (step, call, f"option '{kw.arg}' is restored from the saved value of "
                                                    f"'{value.slice.value}'")
+                        elif isinstance(value, ast.Name) and value.id in keysave and not step.muts.get(value.id):
+                            if keysave[value.id] == kw.arg:
+                                changed.pop(kw.arg, None)
+                            else:
+                                bad = (step, call, f"option '{kw.arg}' is restored from the saved value of "
+                                                   f"'{keysave[value.id]}'")
                         else:
-                            if not snaps:
-                                bad = bad or (step, call, f"option '{kw.arg}' is changed before a snapshot of the "
-                                                          f"options (get_options()) was taken")
+                            if not snaps and kw.arg not in keysave.values():
+                                bad = bad or (step, call, f"option '{kw.arg}' is changed before its previous value (or a "
+                                                          f"snapshot of the options, get_options()) was saved")
                             changed[kw.arg] = step
             last = path[-1]
             if bad is None and changed and last.kind in ("return", "end", "raise"):
@@ -849,6 +879,39 @@ def _o9_o10(ctx, result):
                     f"O9: {qual} changes the global options with set_options and {why}; callers (and an enclosing "
                     f"'with global_options' block) silently continue under different options",
                     derivation=describe_path(path), construct=f"set_options in {qual}"))
+        # exception safety: what set_options changed is restored in a 'finally'
+        for node in ast.walk(func):
+            block = None
+            for field in ("body", "orelse", "finalbody"):
+                stmts = getattr(node, field, None)
+                if isinstance(stmts, list) and stmts and isinstance(stmts[0], ast.stmt):
+                    for idx, stmt in enumerate(stmts):
+                        calls = [c for c in ast.walk(stmt) if isinstance(c, ast.Call) and ctx.dotted(module, c.func) == SET] \
+                            if isinstance(stmt, ast.Expr) else []
+                        if not calls:
+                            continue
+                        call = calls[0]
+                        is_restore = any(kw.arg is None for kw in call.keywords) or all(
+                            isinstance(kw.value, (ast.Subscript, ast.Name)) for kw in call.keywords)
+                        in_finally = field == "finalbody"
+                        if is_restore or in_finally:
+                            continue
+                        rest = stmts[idx + 1:]
+                        protected = bool(rest) and isinstance(rest[0], ast.Try) and any(
+                            isinstance(c, ast.Call) and ctx.dotted(module, c.func) == SET
+                            for st in rest[0].finalbody for c in ast.walk(st))
+                        later_restore = any(isinstance(c, ast.Call) and ctx.dotted(module, c.func) == SET
+                                            for st in rest for c in ast.walk(st))
+                        if later_restore:
+                            result.ob(f"O9 {module.name}.{qual}: the restore after set_options sits in a 'finally'", protected,
+                                      module.loc(stmt), "")
+                            if not protected:
+                                result.add(Finding(
+                                    "R-OPT", module, qual, stmt,
+                                    f"O9: {qual} changes the global options with set_options and restores them further down, "
+                                    f"but not in the 'finally' of a try that starts right after the change: any exception in "
+                                    f"between (a failing callback, a bad argument) leaves the options changed for the caller",
+                                    construct=f"set_options in {qual}: restore not in finally"))
     result.info["O9_O10_sites"] = sites
 
 
